@@ -6,6 +6,7 @@ import Proofs.C05Value
 import Proofs.C05Seq
 import Proofs.C05Event
 import Proofs.C05ConnSetup
+import Proofs.C05TokenRing
 /-!
 # C05 — no bytes from the network can crash the application
 
@@ -540,5 +541,37 @@ example : runCfg .configured ⟨true, true, false, 0, true⟩ [] [] (.errGreates
     runCfg .configured ⟨true, true, false, 0, true⟩ [] [] (.errGreatest none) = .done .failed [] "-" "-" := by decide
 
 end connsetup
+
+/-! ## 9. token strings from the network (partitioner name, `tokens` column of system.local / system.peers)
+
+Model/TokenRing.lean: newTokenRing (partitioner by name suffix, ParseString per partitioner, sort with token.Less) and
+GetHostForToken; compared with the real functions through the hook VerifC05hRing (op `ring`). -/
+section tokenring
+open TokenRing
+
+/-- FULL: for EVERY partitioner name, EVERY assignment of arbitrary byte strings as tokens to hosts and EVERY string
+    looked up, building the ring and the lookup do not panic: ParseString never hands out a nil token (Murmur3: 0 /
+    clamped for strings that are no int64; ordered: the string; Random: a non-nil big.Int whatever SetString says). -/
+theorem C05_tokenring_total (name : Str) (hosts : List (List Str)) (lookup : Str) :
+    (ringOf false name hosts lookup).isCrash = false :=
+  C05TokenRing.ringOf_total name hosts lookup
+
+/-- ... and that is what it takes: a Random ParseString that returns SetString's own result (nil for a string that is
+    no base-10 integer) dies as soon as such a token is sorted next to another one or looked up; numeric strings and
+    the other partitioners are not affected -/
+theorem C05_tokenring_nil_crashes :
+    ringOf true (asc "org.apache.cassandra.dht.RandomPartitioner") [[asc "5", asc "12x4"]] (asc "1") = .crash ∧
+    ringOf true (asc "RandomPartitioner") [[asc "5"], [[]]] (asc "1") = .crash ∧
+    ringOf true (asc "RandomPartitioner") [[asc "5"]] (asc "x") = .crash ∧
+    (ringOf true (asc "RandomPartitioner") [[asc "5", asc "-12"]] (asc "+1")).isCrash = false ∧
+    (ringOf true (asc "Murmur3Partitioner") [[asc "5", asc "12x4"]] []).isCrash = false := by
+  refine ⟨?_, ?_, ?_, ?_, ?_⟩ <;> decide
+
+/-- non-vacuity: Murmur3 ring of "5", "" (= 0), "99999999999999999999" (clamped), "-3": sorted, lookup of 4 ends at 5 -/
+example : ringOf false (asc "Murmur3Partitioner") [[asc "5", []], [asc "99999999999999999999", asc "-3"]] (asc "4")
+    = .ok [.m (-3), .m 0, .m 5, .m 9223372036854775807] (some (.m 5)) := by decide
+example : ringOf false (asc "FooPartitioner") [[asc "5"]] (asc "4") = .err := by decide
+
+end tokenring
 
 end C05
